@@ -5,6 +5,8 @@ INVARIANT Functional
 INVARIANT Window
 INVARIANT Monotone
 INVARIANT EdgeIsInputPlusDelay
+INVARIANT ShiftEquivariant
+INVARIANT ScaleEquivariant
 INVARIANT Abstracts8
 INVARIANT CountsMatch
 INVARIANT OvlPropagates
